@@ -6,9 +6,55 @@ CHECK = {'pkgs': ['core/consensus/qbft'],
  'run': 'TestVerifC05',
  'level': 'exploration',
  'engine': 'enumx',
- 'technique': 'TODO',
- 'claim': 'TODO',
- 'trusted': 'TODO',
- 'rule': 'TODO',
+ 'technique': 'exhaustive enumeration of single alterations of valid consensus wire messages against the real receive path. Four real '
+              'qbft.Consensus components (real NewConsensus, core.NewDutyGater, core.NewDeadliner + NewDutyDeadlineFunc, real eager-double-linear '
+              'round timers, n=4 deterministic secp256k1 keys) are wired through a stub libp2p host: p2p.Sender writes the real delimited frames, '
+              'the network hands them to the real stream handler registered by Consensus.Start (p2p.RegisterHandler with maxConsensusMsgSize, '
+              'unmarshal, protonil.Check, handle). One scripted instance runs in virtual time (testing/synctest; round-1 COMMITs lost, member 3 '
+              'receives no round-1 PREPARE) to a decision with a value prepared in round 1; every frame sent is captured = corpus of valid '
+              'messages (plus a DECIDED built with the package\'s createMsg from the captured COMMIT quorum). Every corpus message x alteration '
+              'family is fed to a fresh receiver component (fake clock pinned inside the duty\'s slot) through handle (after the wire round trip '
+              'and protonil.Check) or, for raw input, through the registered stream handler; rejected input must leave the per-duty instance '
+              'map and every receive buffer unchanged',
+ 'claim': 'Corpus (duty attester/slot 1001, leaders member 0/1/2 in rounds 1/2/3): 26 messages = PRE-PREPARE r1 (no justification), PRE-PREPARE r3 '
+          'justified by 3 ROUND-CHANGE + 4 PREPARE, 8 PREPARE (r1,r3), 7 COMMIT (r1,r3), 2 ROUND-CHANGE without and 6 with prepared certificate '
+          '(3 PREPARE each), DECIDED r3 with 3 COMMIT; every one is first accepted unaltered by the fresh receiver. The real eager timer ends '
+          'round 2 the moment it starts, so the decision falls in round 3, not 2. Quick: the first message of each of the 7 kinds; thorough: '
+          'all 26. Families per message: (wire) every byte of the frame payload xor each single-bit mask (quick: 0x01 and 0x80; thorough: all 8 '
+          'bits); (fields) protoreflect walk over msg, msg.duty, every justification[i] and its duty: every scalar x {+1,-1,0..6,-1,n,max,min; '
+          'slot: other duty / expired / far / first gated / last allowed / expiry boundary; duty type -1..14,max,min}, every bytes field x {byte '
+          'inverted at each position (quick: 8 positions), truncated, extended, zeroed, emptied, recovery id +27}, sub-message cleared, an unknown '
+          'field added at each level - signatures untouched; (resigned) the same scalar alphabet and hash changes with the altered QBFTMsg signed '
+          'again by the member it names; (values) per referenced value: removed, duplicated, replaced by each other valid value, type URL '
+          'replaced by each of 8 other message type names that are registered in the binary / other prefix / emptied, payload truncated/extended/emptied, every single-field change '
+          'of the inner UnsignedDataSet re-packed (key, entry removed/added, data bit flipped at every position (quick: 16), truncated, extended, '
+          'emptied); list reordered, unreferenced valid / empty / garbage value appended, all removed; (subst) justification from another '
+          'duty\'s instance (both directions), from the same instance, message or justification signed by every other member\'s key with and '
+          'without naming it, foreign key, signature taken from every other corpus message (quick: 3), from/to each justification, between '
+          'justifications, justifications reordered/dropped, message as its own justification, whole message correctly re-signed for 15 other '
+          'duties (expired, far future, invalid types, gater and expiry boundaries, exempt); (limits) 2n-1..3n justifications, values at '
+          'limit-1..2*limit+1, peer index n/-1/max, round 0/-1, prepared round -1/min/round/round+1, type 0/6, all correctly signed; (raw) every '
+          'truncation of the frame, every truncation of the payload re-framed, length prefix beyond the cap, all byte strings of length <= 2, a '
+          'really oversized frame (32 MiB+1 value) and the same just below the cap. Oracle: a QBFTMsg is authentic iff exactly that content was '
+          'signed in this process by the key of the member it names (registry of everything the real components and the harness ever signed); '
+          'must-reject = main message or a justification not authentic, unknown peer, type/round/prepared round out of range, duty invalid / '
+          'beyond the window / expired, justification duty differs, more than 2n justifications or 2(j+1) values, a referenced hash not '
+          'resolvable by an attached value of the same message type and content as the value it was made for, undecodable or oversized frame. '
+          'Everything else may be accepted (and must then be enqueued unchanged, exactly once). Second half: in the live runs (scripted instance '
+          'and a plain second instance, also with a member that re-labels the type of the values it forwards) every honest member that decided '
+          'must have handed its subscriber exactly the deterministic proto bytes of the proposal of the round-1 leader = value of the agreed hash',
+ 'trusted': 'decred secp256k1 (unforgeability: only what was signed here can verify), protobuf-go (deterministic marshal, Any), fastssz via '
+            'hashProto for building the table of known values (cross-checked against the captured messages), testutil Random*Seed generators as '
+            'value alphabet. The oracle does not call verifyMsg, verifyMsgLimits, valuesByHash, newMsg, the gater or the deadliner; the duty '
+            'window and deadline table are re-implemented. verifyMsgSig is consulted only to excuse the acceptance of an equivalent encoding of '
+            'an unchanged message\'s signature (recovery id 27/28). A correctly signed message with prepared round >= round, or for an exempt '
+            'duty type, is outside the statement: whatever handle does with it is not judged',
+ 'rule': 'one evaluation = one altered frame handed to a fresh-per-unit real receiver; distinct = (message kind, family, field path or region, '
+         'alteration kind)',
  'budget_s': {'quick': 100, 'thorough': 1500}}
-CHECK["assumptions"] = ENUMX_ASSUME + []
+CHECK["assumptions"] = ENUMX_ASSUME + [
+    "one cluster size (n=4, f=1), one duty type (attester) for the corpus; values are single-entry attestation data sets",
+    "one alteration at a time (plus the stated combinations in the limits family); the receiver has no running instance for the duty",
+    "goroutine preemption inside the virtual-time run is not controlled: the run is repeated until it yields the expected 26 message keys; "
+    "which three members form a quorum inside a justification may differ between shards",
+]
